@@ -296,6 +296,58 @@ pub fn run_c09(ctx: &mut Ctx) {
             ctx.count("overflow_corner_cases");
         }
     }
+    // Through the dialects: every opcode next to an assigned one is still an unknown operator. The whole last-byte
+    // neighbourhood of the two 4-byte secp opcodes (and the adjacent multipliers), and every 1-byte opcode and every
+    // 2-byte opcode with a zero first byte (non-minimal spellings of assigned opcodes), each with no arguments, atoms,
+    // a valid signature triple and a corrupted one, lenient and strict.
+    if !miri {
+        let pts = crate::util::points();
+        let mut groups: Vec<Vec<Vec<u8>>> = Vec::new();
+        for prefix in [[0x13u8, 0xd6, 0x1f], [0x1c, 0x3a, 0x8f]] {
+            for quarter in 0..4u32 {
+                groups.push((quarter * 64..quarter * 64 + 64).map(|l| vec![prefix[0], prefix[1], prefix[2], l as u8]).collect());
+            }
+        }
+        groups.push(
+            [[0x13u8, 0xd6, 0x1e], [0x13, 0xd6, 0x20], [0x1c, 0x3a, 0x8e], [0x1c, 0x3a, 0x90], [0x13, 0xd7, 0x1f], [0x1c, 0x3b, 0x8f]]
+                .iter()
+                .flat_map(|p| [0x00u8, 0x01, 0x3f, 0x40, 0x80, 0xc0, 0xff].map(|l| vec![p[0], p[1], p[2], l]))
+                .collect(),
+        );
+        groups.push((0..=255u8).map(|b| vec![b]).collect());
+        groups.push((0..=255u8).map(|b| vec![0, b]).collect());
+        groups.push((0..=255u8).map(|b| vec![0, 0, b]).collect());
+        for g in groups {
+            let cid = DIRECTED | id;
+            id += 1;
+            if !ctx.want(cid) {
+                continue;
+            }
+            let mut f = Forest::new();
+            let mut shapes: Vec<Id> = ["()", "(1)", "(0x0102 0x030405 7)"].iter().map(|s| crate::sexp::parse(&mut f, s, &[])).collect();
+            for t in [&pts.k1[0], &pts.r1[0]] {
+                let (pk, m, sg) = (f.atom(&t.0), f.atom(&t.1), f.atom(&t.2));
+                shapes.push(f.list(&[pk, m, sg]));
+                let mut bad = t.2.clone();
+                bad[5] ^= 1;
+                let sb = f.atom(&bad);
+                shapes.push(f.list(&[pk, m, sb]));
+            }
+            for code in &g {
+                for fl in [ClvmFlags::empty(), ClvmFlags::NEW_COST_MODEL, ClvmFlags::ENABLE_SECP_OPS | ClvmFlags::ENABLE_KECCAK_OPS_OUTSIDE_GUARD | ClvmFlags::ENABLE_SHA256_TREE,
+                           ClvmFlags::NO_UNKNOWN_OPS, clvmr::chia_dialect::MEMPOOL_MODE] {
+                    if assigned_in_chia(code, fl) || (code.len() == 1 && matches!(code[0], 1 | 2 | 36)) {
+                        continue;
+                    }
+                    for a in &shapes {
+                        log_c09(ctx, &f, code, *a, fl, 11_000_000_000, "chia", cid);
+                        log_c09(ctx, &f, code, *a, fl, 11_000_000_000, "runtime", cid);
+                    }
+                }
+                ctx.count("dialect_neighbourhood_opcodes");
+            }
+        }
+    }
     let n = ctx.n(300_000, 20_000_000);
     let th = ctx.thorough();
     random_cases!(ctx, n, |r, i| {
@@ -408,6 +460,37 @@ fn add_aux(f: &Forest, op: &OpDef, args: Id, flags: ClvmFlags, rec: &mut Value) 
 pub fn run_c10(ctx: &mut Ctx) {
     let miri = ctx.miri;
     let ops = all_ops();
+    // operand lists of length 3 and 4 over values at the byte-length boundaries of inline atoms (carries in the middle
+    // of a list), inline and forced to the heap, both cost models
+    {
+        let nblocks = 32;
+        for blk in 0..nblocks {
+            let cid = DIRECTED | blk as u64;
+            if !ctx.want(cid) || (miri && blk != 0) {
+                continue;
+            }
+            let mut r = ctx.rng(cid);
+            for (li, l) in crate::genr::carry_lists(blk, nblocks).iter().enumerate() {
+                if miri && li % 50 != 0 {
+                    continue;
+                }
+                let mut f = Forest::new();
+                let items: Vec<Id> = l.iter().map(|b| f.atom(b)).collect();
+                let args = f.list(&items);
+                for opname in ["+", "-", "*", "logand", "logior", "logxor"] {
+                    let op = op_by_name(opname);
+                    for fl in [ClvmFlags::empty(), ClvmFlags::NEW_COST_MODEL, ClvmFlags::MALACHITE | ClvmFlags::NEW_COST_MODEL] {
+                        let vary = if (li + blk) % 3 == 0 { 16 } else { 0 };
+                        let Some(c) = call(&f, &op, args, fl, u64::MAX, r.u64(), vary) else { continue };
+                        ctx.eval();
+                        ctx.count("carry_list_calls");
+                        let rec = call_record(&f, &op, args, fl, u64::MAX, &c, cid);
+                        ctx.log_line(&rec);
+                    }
+                }
+            }
+        }
+    }
     let n = ctx.n(250_000, 20_000_000);
     let th = ctx.thorough();
     random_cases!(ctx, n, |r, i| {
